@@ -25,7 +25,7 @@ def pick_params(rng, tier):
   return dict(nmax=25 if tier == 'quick' else 40, shape=None)
 
 
-def run_plain(ctx, rng, spec, start, script, host_cls=HsmEventProcessor, spied=False):
+def run_plain(ctx, rng, spec, start, script, host_cls=HsmEventProcessor, spied=False, query_rng=None):
   """Runs and compares; returns list of findings (prop, key, what, witness) --
   at most one (the run stops at the first disagreement) -- and fills counters."""
   run = cg.Run(spec, spied=spied)
@@ -45,7 +45,24 @@ def run_plain(ctx, rng, spec, start, script, host_cls=HsmEventProcessor, spied=F
     return [('C03', 'C03/start-actions-differ', 'start_at(%s): actions %r expected %r' % (names[start], got, exp), wit)]
   if chart.state_name != names[model.cur]:
     return [('C03', 'C03/start-rest-state', 'start_at(%s) rests in %s expected %s' % (names[start], chart.state_name, names[model.cur]), wit)]
+  queries = []
+  if query_rng is not None:
+    wit['client_queries_between_steps (before step, query, state)'] = queries
   for k, sn in enumerate(script):
+    if query_rng is not None and query_rng.random() < 0.4:
+      # client code asks is_in / child_state between two events (read-only by C22; the next event must still be
+      # offered to the current state first)
+      for _ in range(query_rng.randint(1, 2)):
+        x = query_rng.randrange(spec['n'])
+        q = 'is_in' if query_rng.random() < 0.6 else 'child_state'
+        queries.append((k, q, names[x]))
+        try:
+          getattr(chart, q)(run.fns[x])
+        except cg.Budget:
+          return [('C22', 'C22/query-does-not-terminate', '%s exceeded the step budget' % q, wit)]
+        except Exception:
+          pass                      # child_state of a state off the active path fails by contract
+        ctx.count('client_queries_between_steps')
     run.reset_logs()
     prev = model.cur
     exp_log, kind, S, T = model.dispatch(sn)
